@@ -54,8 +54,29 @@ static int hist(const std::vector<double>& thr, std::vector<tvalue> values)
     return bad ? 1 : 0;
 }
 
+// mode `pct <P> <n>`: the percentile of the sorted list 0, 1, ..., n-1 at the integer percentage P against the exact
+// position P(n-1)/100 (value at the floor, midpoint of the two neighbours when fractional), both variants.
+static int pct(const long P, const long n)
+{
+    std::vector<double> values(static_cast<size_t>(n));
+    for (long i = 0; i < n; ++i) values[static_cast<size_t>(i)] = static_cast<double>(i);
+    const long   lo       = (P * (n - 1)) / 100;
+    const bool   exact    = (P * (n - 1)) % 100 == 0;
+    const double expected = exact ? static_cast<double>(lo) : (static_cast<double>(lo) + static_cast<double>(lo + 1)) / 2;
+    const double sorted   = percentile_sorted(values.data(), values.data() + n, static_cast<double>(P));
+    auto         copy     = values;
+    const double unsorted = percentile(copy.data(), copy.data() + n, static_cast<double>(P));
+    std::printf("percentile P=%ld n=%ld: sorted variant %.17g, unsorted variant %.17g, exact position %ld%s -> expected %.17g\n", P, n, sorted,
+                unsorted, lo, exact ? "" : ".5-ish (fractional)", expected);
+    return (sorted == expected && unsorted == expected) ? 0 : 1;
+}
+
 int main(int argc, char** argv)
 {
+    if (argc == 4 && std::strcmp(argv[1], "pct") == 0)
+    {
+        return pct(std::atol(argv[2]), std::atol(argv[3]));
+    }
     if (argc >= 5 && std::strcmp(argv[1], "hist") == 0)
     {
         const auto          nt = std::atoi(argv[3]);
